@@ -63,6 +63,26 @@ def run(ctx):  # noqa: C901, PLR0912, PLR0915
     # a context state obtained through the entity interface is a copy: associating it there associates nothing in the MDIB
     common.entity_getters_hand_out_copies(ctx, 'C10.R1')
     common.skip_lists_are_kept(ctx, 'C10.R2')
+    # the SetContextState handler writes back every state it recorded as modified: the handle list handed to write_entity is the
+    # recorded list itself - a filter (`if h in entity.states`) turns the KeyError that rejects an inconsistent multi-proposal
+    # request into an accepted request whose stale second copy re-associates what the first proposal disassociated
+    tpf = repo.func(CP)
+    gtp = cfg_of(tpf)
+    la_tp = local_assignments(tpf.node)
+    n_wb = 0
+    for wn, wc in gtp.nodes_calling('write_entity'):
+        if len(wc.args) < 2:
+            continue
+        n_wb += 1
+        h = wc.args[1]
+        vals = la_tp.get(h.id, []) if isinstance(h, ast.Name) else [h]
+        filtered = [unparse(v)[:70] for v in vals if isinstance(v, (ast.ListComp, ast.GeneratorExp)) and any(g_.ifs for g_ in v.generators)
+                    or (isinstance(v, ast.Call) and call_name(v) == 'filter')]
+        ctx.ob('C10.R1', 'write-back writes every recorded handle', not filtered,
+               'the handler writes back exactly the handles it recorded as modified' if not filtered else
+               f'the handles written back are filtered ({filtered[0]}): a request with two proposals for one descriptor is no longer '
+               f'rejected, the copy of the second proposal writes the previously associated state back as associated', fi=tpf, node=wc)
+    ctx.floor('C10.R1', n_wb, 1, 'write_entity calls with a handle list in the SetContextState handler')
     # ------------------------------------------------------------------ R1
     sl = repo.func(f'{XT}.set_location')
     g = cfg_of(sl)
